@@ -166,6 +166,11 @@ class CondSpace:
             return self._truth_cmp(c, val)
         if h == "ite":
             return self.truth(c[2], val) if self.truth(c[1], val) else self.truth(c[3], val)
+        if h == "call" and strip(c[1]) == ("glob", "builtins.isinstance") and len(c[2]) == 2 and c[2][0] in self.subj_consts:
+            # isinstance(x, T) cannot hold on a path where x is None
+            reg = val[("subj", c[2][0])]
+            if reg == ("v", ("c", "NoneType", None)):
+                return False
         return val[("free", c)]
 
     def _truth_cmp(self, c, val):
